@@ -18,6 +18,7 @@
 #include <cstdio>
 #include <cstdlib>
 #include <fstream>
+#include <functional>
 #include <iostream>
 #include <sstream>
 #include <utility>
@@ -54,22 +55,65 @@ static uint64_t rnd() {
     return z ^ (z >> 31);
 }
 
+// comparator *carriers* (pointer runs): the same recording comparator inside a std::function, and inside an object
+// that owns heap memory and whose move constructor / assignment empties and marks the source; a call of a
+// moved-from carrier is an error (std::function throws bad_function_call, RecOwn sets `used_moved_from`)
+static RecCmp g_rec;                 // context of RecOwn (so that it is default-constructible)
+static bool g_used_moved_from = false;
+struct RecOwn {
+    std::vector<int> owned;
+    bool moved;
+    RecOwn() : owned(8, 1), moved(false) {}
+    RecOwn(const RecOwn&) = default;
+    RecOwn& operator=(const RecOwn&) = default;
+    RecOwn(RecOwn&& o) noexcept : owned(std::move(o.owned)), moved(o.moved) { o.owned.clear(); o.moved = true; }
+    RecOwn& operator=(RecOwn&& o) noexcept {
+        if (this != &o) { owned = std::move(o.owned); moved = o.moved; o.owned.clear(); o.moved = true; }
+        return *this;
+    }
+    bool operator()(const Elem& r, const Elem& l) const {
+        if (moved || owned.size() != 8) g_used_moved_from = true;
+        return g_rec(r, l);
+    }
+};
+typedef std::function<bool(const Elem&, const Elem&)> RecFn;
+
+enum Carrier { C_PLAIN = 0, C_FN, C_FN_TMP, C_OWN, C_OWN_TMP, C_OWN_DEFAULT, NUM_CARRIERS };
+static const char* const carrier_name[NUM_CARRIERS] = {
+    "a plain functor", "a std::function (lvalue)", "a std::function (temporary)", "a heap-owning move-sensitive comparator (lvalue)",
+    "a heap-owning move-sensitive comparator (temporary)", "a default-constructed heap-owning move-sensitive comparator"};
+
 struct Caller {
-    int fam, entry, n;
+    int fam, entry, n, carrier;
     RecCmp cmp;
     template <typename It>
-    bool operator()(It first) const { return c15::call(fam, entry, n, first, cmp); }
+    bool operator()(It first) const {
+        switch (carrier) {
+        case C_FN: { RecFn f = cmp; return c15::call(fam, entry, n, first, f); }
+        case C_FN_TMP: { RecFn f = cmp; return c15::call<true>(fam, entry, n, first, f); }
+        case C_OWN: { RecOwn c; return c15::call(fam, entry, n, first, c); }
+        case C_OWN_TMP: { RecOwn c; return c15::call<true>(fam, entry, n, first, c); }
+        case C_OWN_DEFAULT: return c15::call_default_as<RecOwn>(fam, entry, n, first);
+        default: return c15::call(fam, entry, n, first, cmp);
+        }
+    }
 };
 
 // one run through iterator kind `kind`; the trace is in logical positions of the sequence
-static bool run_once(int kind, int variant, int fam, int entry, int n, const std::vector<long>& keys, Trace& tr,
+static bool run_once(int kind, int variant, int carrier, int fam, int entry, int n, const std::vector<long>& keys, Trace& tr,
                      std::string& err) {
     c15::Seq<Elem> seq(kind, n, variant);
     for (int i = 0; i < n; ++i) { seq.at(i).key = keys[i]; seq.at(i).tag = i; }
     bool bad = false;
     tr.clear();
-    Caller call = {fam, entry, n, {&seq, &tr, &bad}};
-    if (!seq.apply(call)) { err = "entry point does not exist"; return false; }
+    Caller call = {fam, entry, n, carrier, {&seq, &tr, &bad}};
+    g_rec = call.cmp;
+    g_used_moved_from = false;
+    try {
+        if (!seq.apply(call)) { err = "entry point does not exist"; return false; }
+    }
+    catch (const std::exception& e) { err = std::string("exception ") + e.what() + " escaped the sort"; return false; }
+    if (g_used_moved_from) { err = "a comparator object was called after it had been moved from"; return false; }
     if (bad) { err = "comparator called on an object that is not an element of the sequence"; return false; }
     if (!seq.guards_ok()) { err = "wrote outside the sequence"; return false; }
     if (kind == c15::K_DEQUE && n >= 2 && !seq.straddles()) { err = "harness: deque layout does not straddle a block boundary"; return false; }
@@ -116,24 +160,28 @@ int main(int argc, char** argv) {
                     bool failed = false;
                     for (size_t q = 0; q < inputs.size() && !failed; ++q) {
                         // pointer first (defines the table), then the same input through every other iterator kind
-                        for (int kind = 0; kind < c15::NUM_KINDS && !failed; ++kind) {
+                        // … and (pointer, inputs 0 and 5) with the comparator inside every carrier
+                        int nvar = c15::NUM_KINDS + ((q == 0 || q == 5) ? NUM_CARRIERS - 1 : 0);
+                        for (int var = 0; var < nvar && !failed; ++var) {
+                            int kind = var < c15::NUM_KINDS ? var : 0;
+                            int carrier = var < c15::NUM_KINDS ? 0 : var - c15::NUM_KINDS + 1;
                             Trace tr;
                             std::string err;
-                            if (!run_once(kind, int(q), fam, entry, n, inputs[q], tr, err)) {
-                                std::fprintf(stderr, "c15_extract: %s %s %d through %s iterators: %s\n", c15::family_name[fam],
-                                             c15::entry_name[entry], n, c15::kind_name[kind], err.c_str());
+                            if (!run_once(kind, int(q), carrier, fam, entry, n, inputs[q], tr, err)) {
+                                std::fprintf(stderr, "c15_extract: %s %s %d through %s iterators with %s: %s\n", c15::family_name[fam],
+                                             c15::entry_name[entry], n, c15::kind_name[kind], carrier_name[carrier], err.c_str());
                                 ++problems;
-                                if (kind == 0) ++ptr_problems;
+                                if (var == 0) ++ptr_problems;
                                 failed = true;
                                 break;
                             }
-                            if (q == 0 && kind == 0) ref = tr;
+                            if (q == 0 && var == 0) ref = tr;
                             else if (tr != ref) {
-                                std::fprintf(stderr, "c15_extract: %s %s %d: comparator trace through %s iterators on input %zu differs "
-                                             "from the pointer trace on input 0 (input dependent, or a different network per iterator type)\n",
-                                             c15::family_name[fam], c15::entry_name[entry], n, c15::kind_name[kind], q);
+                                std::fprintf(stderr, "c15_extract: %s %s %d: comparator trace through %s iterators with %s on input %zu differs "
+                                             "from the pointer trace on input 0 (input, iterator type or comparator type dependent)\n",
+                                             c15::family_name[fam], c15::entry_name[entry], n, c15::kind_name[kind], carrier_name[carrier], q);
                                 ++problems;
-                                if (kind == 0) ++ptr_problems;
+                                if (var == 0) ++ptr_problems;
                                 failed = true;
                             }
                         }
